@@ -15,7 +15,8 @@ RULE = (
     "times |t| from 1e-3 to 50 of both signs checks h1_flow (momentum kick by the independent gradient of h1, position "
     "bitwise unchanged) and h2_flow (against the matrix exponential of the linear Hamilton equations built from the "
     "dense metric; h2 conserved; additivity in time; inverse by negative time), and dh2_flow_dmom against the "
-    "exponential's blocks and a finite-difference Jacobian. distinct_nontrivial = distinct (system class, metric kind, "
+    "exponential's blocks (for |t| and for the signed t) and a finite-difference Jacobian; the checks are repeated after "
+    "the system's metric has been reassigned (as the metric adapters do). distinct_nontrivial = distinct (system class, metric kind, "
     "time-magnitude class, sign of t)."
 )
 ASSUMPTIONS = [
@@ -79,74 +80,97 @@ def run_case(case, obs) -> None:  # noqa: C901, PLR0915
     def viol(key, msg):
         obs.violation(f"{key}:{cname}", f"{msg}; metric={mk} spec={spec}")
 
-    for t in times:
-        # ---------------- h1 flow
-        st = m.state(q, p)
-        pos_before = st.pos.copy()
-        s.h1_flow(st, t)
-        obs.count("flow_calls_checked")
-        if spec["sys"] in ("euclidean", "gaussian", "constrained"):
-            g = m.target.grad(q)
-        else:
-            g = zoo.fd_grad(m.ref_h1, q, 1e-4)
-        e = rel(st.mom, p - t * g)
-        obs.maxi("relerr.h1_flow.mom", e)
-        if e > 2e-6 * (1 + abs(t)):
-            viol("h1_flow:momentum", f"h1_flow(t={t:.4g}) momentum differs from p - t grad h1 by {e:.3e}")
-        if not np.array_equal(st.pos, pos_before):
-            viol("h1_flow:position-changed", f"h1_flow(t={t:.4g}) changed the position")
-        # ---------------- h2 flow
-        st = m.state(q, p)
-        h2_before = m.ref_h2(q, p)
-        s.h2_flow(st, t)
-        obs.count("flow_calls_checked")
-        z = sla.expm(t * gen) @ np.concatenate([q, p])
-        tol = 1e-8 * (1 + abs(t))
-        e = max(rel(st.pos, z[:dim]), rel(st.mom, z[dim:]))
-        obs.maxi(f"relerr.h2_flow.{tclass(t)}", e)
-        if e > tol:
-            viol("h2_flow:exact-solution", f"h2_flow(t={t:.4g}) differs from the exact linear flow by {e:.3e}")
-        e = abs(m.ref_h2(st.pos, st.mom) - h2_before) / max(1.0, abs(h2_before))
-        obs.maxi("relerr.h2_flow.energy", e)
-        if e > tol:
-            viol("h2_flow:energy", f"h2 not conserved by h2_flow(t={t:.4g}): relative change {e:.3e}")
-        # additivity and inverse
-        a = float(rng.uniform(-1, 1) * t)
-        st2 = m.state(q, p)
-        s.h2_flow(st2, a)
-        s.h2_flow(st2, t - a)
-        e = max(rel(st2.pos, st.pos), rel(st2.mom, st.mom))
-        obs.maxi("relerr.h2_flow.additivity", e)
-        if e > tol:
-            viol("h2_flow:additivity", f"h2_flow({a:.4g}) then h2_flow({t - a:.4g}) != h2_flow({t:.4g}): {e:.3e}")
-        s.h2_flow(st, -t)
-        e = max(rel(st.pos, q), rel(st.mom, p))
-        obs.maxi("relerr.h2_flow.inverse", e)
-        if e > tol:
-            viol("h2_flow:inverse", f"h2_flow(-t) does not undo h2_flow(t={t:.4g}): {e:.3e}")
-        obs.count("flow_calls_checked", 3)
-        # ---------------- derivative of the flow w.r.t. momentum
-        if m.constrained:
+    def check_times(times, phase):
+        nonlocal gen, minv
+        for t in times:
+            # ---------------- h1 flow
             st = m.state(q, p)
-            dpos, dmom = s.dh2_flow_dmom(st, abs(t))
-            ex = sla.expm(abs(t) * gen)
-            ident = np.identity(dim)
-            got_pos, got_mom = np.asarray(dpos @ ident, dtype=float), np.asarray(dmom @ ident, dtype=float)
-            e = max(rel(got_pos, ex[:dim, dim:]), rel(got_mom, ex[dim:, dim:]))
-            obs.maxi("relerr.dh2_flow_dmom", e)
-            obs.count("flow_derivatives_checked")
+            pos_before = st.pos.copy()
+            s.h1_flow(st, t)
+            obs.count("flow_calls_checked")
+            if spec["sys"] in ("euclidean", "gaussian", "constrained"):
+                g = m.target.grad(q)
+            else:
+                g = zoo.fd_grad(m.ref_h1, q, 1e-4)
+            e = rel(st.mom, p - t * g)
+            obs.maxi("relerr.h1_flow.mom", e)
+            if e > 2e-6 * (1 + abs(t)):
+                viol("h1_flow:momentum", f"h1_flow(t={t:.4g}) momentum differs from p - t grad h1 by {e:.3e}")
+            if not np.array_equal(st.pos, pos_before):
+                viol("h1_flow:position-changed", f"h1_flow(t={t:.4g}) changed the position")
+            # ---------------- h2 flow
+            st = m.state(q, p)
+            h2_before = m.ref_h2(q, p)
+            s.h2_flow(st, t)
+            obs.count("flow_calls_checked")
+            z = sla.expm(t * gen) @ np.concatenate([q, p])
+            tol = 1e-8 * (1 + abs(t))
+            e = max(rel(st.pos, z[:dim]), rel(st.mom, z[dim:]))
+            obs.maxi(f"relerr.h2_flow.{tclass(t)}", e)
             if e > tol:
-                viol("dh2_flow_dmom:blocks", f"dh2_flow_dmom(t={abs(t):.4g}) differs from the exact Jacobian blocks by {e:.3e}")
+                viol("h2_flow:exact-solution", f"h2_flow(t={t:.4g}) differs from the exact linear flow by {e:.3e}")
+            e = abs(m.ref_h2(st.pos, st.mom) - h2_before) / max(1.0, abs(h2_before))
+            obs.maxi("relerr.h2_flow.energy", e)
+            if e > tol:
+                viol("h2_flow:energy", f"h2 not conserved by h2_flow(t={t:.4g}): relative change {e:.3e}")
+            # additivity and inverse
+            a = float(rng.uniform(-1, 1) * t)
+            st2 = m.state(q, p)
+            s.h2_flow(st2, a)
+            s.h2_flow(st2, t - a)
+            e = max(rel(st2.pos, st.pos), rel(st2.mom, st.mom))
+            obs.maxi("relerr.h2_flow.additivity", e)
+            if e > tol:
+                viol("h2_flow:additivity", f"h2_flow({a:.4g}) then h2_flow({t - a:.4g}) != h2_flow({t:.4g}): {e:.3e}")
+            s.h2_flow(st, -t)
+            e = max(rel(st.pos, q), rel(st.mom, p))
+            obs.maxi("relerr.h2_flow.inverse", e)
+            if e > tol:
+                viol("h2_flow:inverse", f"h2_flow(-t) does not undo h2_flow(t={t:.4g}): {e:.3e}")
+            obs.count("flow_calls_checked", 3)
+            # ---------------- derivative of the flow w.r.t. momentum
+            if m.constrained:
+                # the reported derivative must be right for the signed time as well
+                dpos_s, dmom_s = s.dh2_flow_dmom(m.state(q, p), t)
+                exs = sla.expm(t * gen)
+                es = max(rel(np.asarray(dpos_s @ np.identity(dim), dtype=float), exs[:dim, dim:]),
+                         rel(np.asarray(dmom_s @ np.identity(dim), dtype=float), exs[dim:, dim:]))
+                obs.maxi("relerr.dh2_flow_dmom.signed", es)
+                if es > 1e-8 * (1 + abs(t)):
+                    viol("dh2_flow_dmom:signed-time", f"dh2_flow_dmom(t={t:.4g}) differs from the exact Jacobian blocks by {es:.3e}")
+                st = m.state(q, p)
+                dpos, dmom = s.dh2_flow_dmom(st, abs(t))
+                ex = sla.expm(abs(t) * gen)
+                ident = np.identity(dim)
+                got_pos, got_mom = np.asarray(dpos @ ident, dtype=float), np.asarray(dmom @ ident, dtype=float)
+                e = max(rel(got_pos, ex[:dim, dim:]), rel(got_mom, ex[dim:, dim:]))
+                obs.maxi("relerr.dh2_flow_dmom", e)
+                obs.count("flow_derivatives_checked")
+                if e > tol:
+                    viol("dh2_flow_dmom:blocks", f"dh2_flow_dmom(t={abs(t):.4g}) differs from the exact Jacobian blocks by {e:.3e}")
 
-            def flow_of_mom(pp, tt=abs(t)):
-                sx = m.state(q, pp)
-                s.h2_flow(sx, tt)
-                return np.concatenate([sx.pos, sx.mom])
+                def flow_of_mom(pp, tt=abs(t)):
+                    sx = m.state(q, pp)
+                    s.h2_flow(sx, tt)
+                    return np.concatenate([sx.pos, sx.mom])
 
-            jac = zoo.fd_grad(flow_of_mom, p, 1e-3)  # flow is linear in p: FD exact up to rounding
-            e = max(rel(got_pos, jac[:dim]), rel(got_mom, jac[dim:]))
-            obs.maxi("relerr.dh2_flow_dmom.fd", e)
-            if e > 1e-7 * (1 + abs(t)):
-                viol("dh2_flow_dmom:finite-difference", f"dh2_flow_dmom(t={abs(t):.4g}) differs from FD Jacobian of h2_flow by {e:.3e}")
-        obs.token(spec["sys"], mk, tclass(t), t > 0)
+                jac = zoo.fd_grad(flow_of_mom, p, 1e-3)  # flow is linear in p: FD exact up to rounding
+                e = max(rel(got_pos, jac[:dim]), rel(got_mom, jac[dim:]))
+                obs.maxi("relerr.dh2_flow_dmom.fd", e)
+                if e > 1e-7 * (1 + abs(t)):
+                    viol("dh2_flow_dmom:finite-difference", f"dh2_flow_dmom(t={abs(t):.4g}) differs from FD Jacobian of h2_flow by {e:.3e}")
+            obs.token(spec["sys"], mk, tclass(t), t > 0)
+    check_times(times, "fresh")
+    # the metric of a live system is reassigned by the metric adapters at the end of warm-up: flows must follow it
+    new_arg, new_dense = zoo.const_metric(str(rng.choice(["diag", "dense", "scaled", "chol_lower", "eig"])), dim, rng)
+    s.metric = new_arg
+    m.metric_dense = new_dense
+    minv = np.linalg.inv(new_dense)
+    gen = np.zeros((2 * dim, 2 * dim))
+    gen[:dim, dim:] = minv
+    if gaussian:
+        gen[dim:, :dim] = -np.identity(dim)
+    q, p = m.random_point(rng)
+    obs.count("metric_reassignments")
+    check_times(times[:2], "after-metric-reassignment")
     obs.sample({"sys": spec["sys"], "metric": mk, "dim": dim, "times": times})
